@@ -289,8 +289,25 @@ def judge_history(case) -> Verdict:
             if queried:
                 reassigned_after_query = True
             kinds.add("set")
+        elif name == "compare":
+            # a read-only question in between (is this address inside that one, and the reverse): no derived value may
+            # change through it
+            if cls != "Address" or poisoned:
+                continue
+            from cisco_acl import Address
+
+            ob, ow = op[1] & ALL1, op[2] & ALL1
+            if len(R.nc_bits(ow)) > 8:
+                raise Invalid()
+            other = Address(f"{R.int2ip(ob & ~ow & ALL1)} {R.int2ip(ow)}")
+            got = (obj.subnet_of(other), other.subnet_of(obj))
+            want = (R.pair_contains((ob & ~ow & ALL1, ow), (base & ~wild & ALL1, wild)),
+                    R.pair_contains((base & ~wild & ALL1, wild), (ob & ~ow & ALL1, ow)))
+            if got != want:
+                v.fail(f"{where}:containment-answer", {"got": got, "want": want, "step": step})
+            kinds.add("c")
         elif name == "max":
-            if cls != "Wildcard":
+            if cls != "Wildcard" and not case.get("address_limit_attr"):
                 continue
             limit = op[1]
             if not 0 <= limit <= 30:
@@ -348,7 +365,11 @@ def history(draw):
     init = draw(small_pair())
     ops = []
     for _ in range(draw(st.integers(2, 12))):
-        kind = draw(st.sampled_from(["set", "set", "ipnets", "ipnets", "scalars", "max", "over"]))
+        kind = draw(st.sampled_from(["set", "set", "ipnets", "ipnets", "scalars", "max", "over", "compare"]))
+        if kind == "compare":
+            p = draw(small_pair())
+            ops.append(["compare", p[0], p[1]])
+            continue
         if kind == "set":
             p = draw(small_pair())
             ops.append(["set", p[0], p[1]])
@@ -360,6 +381,8 @@ def history(draw):
         else:
             ops.append([kind])
     case = {"cls": cls, "init": init, "ops": ops}
+    if cls == "Address":
+        case["address_limit_attr"] = True  # the limit attribute of an Address is honoured by its next line
     if cls == "Address" and draw(st.booleans()):
         case["born_group"] = [draw(small_pair()) for _ in range(draw(st.integers(1, 3)))]
     elif draw(st.integers(0, 2)) == 0:
